@@ -45,8 +45,8 @@ CHECKS = {
              text="All schedules up to the bound of 2-4 concurrent callers of every Once/Limit/Lock wrapper, WithLock over one mutex shared by wrappers of different kinds, waiter-vs-completion for Launch/Signal/Background/StartGroup, all Retry result scripts up to n+1, hook orders.", note=SCHED_NOTE),
  "C16": dict(cat="model_checking", tech="explicit-state BFS over operation histories of the real List/Stack vs a sequence model", ref="§4 C16",
              text="Every operation history up to depth 5 (quick) / 7 (thorough) over two lists / stacks with element handles: all traversals, Len, In/Ok, rejected operations, against a slice model.", note=SEQ_NOTE),
- "C17": dict(cat="model_checking", tech="exhaustive input enumeration of sort/IsSorted/Heap vs independent oracle", ref="§4 C17",
-             text="Every sequence over {-1,0,1,2} up to length 6/8 x three orderings: permutation, sortedness, stability, usability after sort, IsSorted iff, Heap order.", note=SEQ_NOTE),
+ "C17": dict(cat="model_checking", tech="exhaustive input enumeration of sort/IsSorted/Heap vs independent oracle + " + SCHED + " for goroutines working on private lists", ref="§4 C17",
+             text="Every sequence over {-1,0,1,2} up to length 6/8 x three orderings: permutation, sortedness, stability, usability after sort (also through the root, drained and refilled), IsSorted iff, Heap order; plus every schedule up to the bound of two goroutines that each sort / test / heap-order a list of their own (answers must be the sequential ones).", note=SEQ_NOTE + " " + SCHED_NOTE),
  "C18": dict(cat="model_checking", tech="explicit-state BFS over Set operation histories vs a reference set + " + SCHED + " with a brute-force sequential-witness check of every history", ref="§4 C18",
              text="Every operation history up to depth 6/8 on 4 set kinds agrees with a reference set; every history of 2-3 thread programs on a synchronized set under every schedule up to the bound has a sequential witness; race oracle on.", note=SEQ_NOTE + " " + SCHED_NOTE),
  "C19": dict(cat="model_checking", tech="exhaustive enumeration of histogram shapes x value multisets vs a sorted-slice oracle", ref="§4 C19",
